@@ -58,7 +58,13 @@ def scenario_for(seed, index, tier):
                               ['raw', raw.hex()]]
         writes = []
         for i in range(rng.randint(0, 10)):
-            n = rng.choice([0, 1, 15, 16, 17, 31, 32, 33, 500, 3000])
+            n = rng.choice([0, 1, 15, 16, 17, 31, 32, 33, 500, 3000,
+                            1024, 2047, 2048, 2049, 4096, 8192])
+            if n >= 1024 and compress is None and rng.random() < 0.7:
+                # make the BODY send exactly n bytes long
+                head = len(wire.varint(ids['sb.play.plugin'])) + \
+                    len(wire.string('w:%d' % k))
+                n = max(n - head, 0)
             writes.append(['plugin', 'w:%d' % k, bytes(
                 (i * 29 + j * 7 + k) & 0xFF for j in range(n)).hex()])
         conns.append({'login': login, 'play': items})
@@ -121,7 +127,8 @@ def wrapper_scenario(rng):
     for _ in range(rng.randint(1, 14)):
         k = rng.random()
         if k < 0.45:
-            n = rng.choice([0, 1, 15, 16, 17, 64, 1000])
+            n = rng.choice([0, 1, 15, 16, 17, 64, 1000, 1024, 2047, 2048,
+                            2049, 4096, 4097, 8192, 16384])
             ops.append(['send', bytes(rng.randrange(256)
                                       for _ in range(n)).hex()])
         elif remaining > 0:
